@@ -103,6 +103,9 @@ def header_block(part):
         lines.append(('Content-Type', part.ctype))
     if st.get('ctype_first'):
         lines.reverse()
+    if st.get('cte') is not None:
+        # RFC 7578 4.7: deprecated, senders SHOULD NOT - but may; RFC 2045 6.1: the value is case-insensitive
+        lines.insert(0 if st.get('cte_first') else len(lines), ('Content-Transfer-Encoding', st['cte']))
     out = []
     for k, v in lines:
         if case == 'lower':
